@@ -51,7 +51,7 @@ def dump(repo, work, filt):
     os.makedirs(work, exist_ok=True)
     src = os.path.join(work, "c08_inst.cpp")
     with open(src, "w") as f:
-        f.write(INST.replace("@@SEL@@", SEL_TU))
+        f.write(INST.replace("@@SEL@@", SEL_TU + MIX_TU))
     out = os.path.join(work, "ast_%s.json" % filt)
     cmd = ["clang++", "-std=c++11", "-I" + repo, "-fsyntax-only", "-Xclang", "-ast-dump=json",
            "-Xclang", "-ast-dump-filter=" + filt, src]
@@ -387,6 +387,29 @@ def rc_facts(docs):
 CMPK = {"==": "KEq", "!=": "KNe", "<": "KLt", "<=": "KLe", ">": "KGt", ">=": "KGe"}
 
 
+def cmp_operand(x, pa, pb):
+    """operand of a comparison: a.ptr / b.ptr, possibly under an explicit cast -> CA | CB | CAvoid | CBvoid | None"""
+    void = False
+    while True:
+        k = x.get("kind")
+        if k in ("ImplicitCastExpr", "ParenExpr", "ExprWithCleanups") and inner(x):
+            x = inner(x)[0]
+        elif k in ("CStyleCastExpr", "CXXStaticCastExpr", "CXXReinterpretCastExpr", "CXXConstCastExpr", "CXXFunctionalCastExpr") and inner(x):
+            if "void" in x.get("type", {}).get("qualType", ""):
+                void = True
+            else:
+                return None          # an explicit cast to some other pointer type: not classified
+            x = inner(x)[-1]
+        else:
+            break
+    if x.get("kind") == "MemberExpr" and x.get("name") == "ptr" and inner(x):
+        b = strip(inner(x)[0])
+        rid = b.get("referencedDecl", {}).get("id") if b.get("kind") == "DeclRefExpr" else None
+        side = "CA" if rid == pa else "CB" if rid == pb else None
+        return side + ("void" if void else "") if side else None
+    return None
+
+
 def cexp(n, pa, pb):
     """boolean expression over a.ptr / b.ptr -> Coq cexp text"""
     n = strip(n)
@@ -394,15 +417,7 @@ def cexp(n, pa, pb):
     if k == "UnaryOperator" and n.get("opcode") == "!":
         return "(CNot %s)" % cexp(inner(n)[0], pa, pb)
     if k == "BinaryOperator" and n.get("opcode") in CMPK:
-        sides = []
-        for x in inner(n):
-            x = strip(x)
-            side = None
-            if x.get("kind") == "MemberExpr" and x.get("name") == "ptr" and inner(x):
-                b = strip(inner(x)[0])
-                rid = b.get("referencedDecl", {}).get("id") if b.get("kind") == "DeclRefExpr" else None
-                side = "CA" if rid == pa else "CB" if rid == pb else None
-            sides.append(side)
+        sides = [cmp_operand(x, pa, pb) for x in inner(n)]
         if len(sides) == 2 and None not in sides:
             return "(CCmp %s %s %s)" % (CMPK[n["opcode"]], sides[0], sides[1])
     return "CUnk"
@@ -419,7 +434,7 @@ def single_return(fn):
 
 
 def cmp_facts(repo, work, spec):
-    out = {"c_eq": "CUnk", "c_ne": "CUnk", "c_lt": "CUnk", "a_bool": False, "a_arrow": False, "a_deref": False}
+    out = {"c_eq": "CUnk", "c_ne": "CUnk", "c_lt": "CUnk", "a_bool": False, "a_arrow": False, "a_deref": False, "c_mixed": False}
     docs = dump(repo, work, "memory::operator")
     key = {"operator==": "c_eq", "operator!=": "c_ne", "operator<": "c_lt"}
     for d in docs:
@@ -431,6 +446,8 @@ def cmp_facts(repo, work, spec):
             ps = [p["id"] for p in inner(f) if p.get("kind") == "ParmVarDecl"]
             if len(ps) != 2 or "IntrusivePtr" not in f.get("type", {}).get("qualType", ""):
                 continue
+            if "Derived" in f.get("type", {}).get("qualType", ""):
+                continue            # a mixed-type instantiation (from the c08mix functions); the Base/Base one is read
             e = single_return(f)
             if e is not None:
                 out[key[d["name"]]] = cexp(e, ps[0], ps[1])
@@ -448,6 +465,21 @@ def cmp_facts(repo, work, spec):
             if e is not None:
                 e = strip(e)
                 out["a_deref"] = e.get("kind") == "UnaryOperator" and e.get("opcode") == "*" and pexp(inner(e)[0], cx) == "PThis"
+    # mixed-type comparisons: which function does `b == d` etc. call?
+    mdocs = dump(repo, work, "c08mix")
+    ns = [d for d in mdocs if d.get("kind") == "NamespaceDecl" and d.get("name") == "c08mix"]
+    ok, seen = True, 0
+    for f in inner(ns[0]) if ns else []:
+        if f.get("kind") != "FunctionDecl":
+            continue
+        e = single_return(f)
+        e = strip(e) if e is not None else {}
+        want = {"eq": "operator==", "ne": "operator!=", "lt": "operator<"}.get(f.get("name", "")[:2])
+        seen += 1
+        if not (e.get("kind") == "CXXOperatorCallExpr" and inner(e) and
+                strip(inner(e)[0]).get("referencedDecl", {}).get("name") == want):
+            ok = False           # e.g. a built-in comparison of two operator bool() results
+    out["c_mixed"] = ok and seen == 6
     return out
 
 
@@ -562,6 +594,18 @@ def members(ipdocs, rcdocs):
     return order(ip, IP_ORDER) + order(rc, RC_ORDER), names
 
 
+MIX_TU = r"""
+namespace c08mix {
+using B = rkcommon::memory::IntrusivePtr<c08inst::Base>;
+using D = rkcommon::memory::IntrusivePtr<c08inst::Derived>;
+bool eq_bd(const B &b, const D &d) { return b == d; }
+bool eq_db(const B &b, const D &d) { return d == b; }
+bool ne_bd(const B &b, const D &d) { return b != d; }
+bool ne_db(const B &b, const D &d) { return d != b; }
+bool lt_bd(const B &b, const D &d) { return b < d; }
+bool lt_db(const B &b, const D &d) { return d < b; }
+}
+"""
 SEL_TU = r"""
 namespace c08sel {
 using B = rkcommon::memory::IntrusivePtr<c08inst::Base>;
@@ -626,6 +670,54 @@ def selection(repo, work):
     return sel, detail
 
 
+def free_decls(repo, work):
+    """every free function / function template / alias declared in namespace rkcommon::memory by
+    IntrusivePtr.h and RefCount.h (out-of-line member definitions are not free functions)"""
+    docs = dump(repo, work, "rkcommon::memory")
+    out, names = [], []
+    other = 0
+    kinds = {"operator<": "KLt", "operator==": "KEq", "operator!=": "KNe", "operator<=": "KLe", "operator>": "KGt", "operator>=": "KGe"}
+    seen_ns = False
+    for d in docs:
+        if d.get("kind") != "NamespaceDecl" or d.get("name") != "memory":
+            continue
+        seen_ns = True
+        for c in inner(d):
+            k = c.get("kind")
+            if c.get("isImplicit") or k in ("ClassTemplateDecl", "CXXRecordDecl", "ClassTemplateSpecializationDecl"):
+                continue
+            if c.get("parentDeclContextId") or k in ("CXXMethodDecl", "CXXConstructorDecl", "CXXDestructorDecl", "CXXConversionDecl"):
+                continue                      # out-of-line definition of a member
+            tag = None
+            if k == "FunctionTemplateDecl":
+                tps = [x for x in inner(c) if x.get("kind") in ("TemplateTypeParmDecl", "NonTypeTemplateParmDecl", "TemplateTemplateParmDecl")]
+                fns = [x for x in inner(c) if x.get("kind") == "FunctionDecl"]
+                if any(x.get("parentDeclContextId") for x in fns):
+                    continue
+                qt = fns[0].get("type", {}).get("qualType", "") if fns else ""
+                ps = param_of(qt).replace(" ", "")
+                if c.get("name") in kinds and all(x.get("kind") == "TemplateTypeParmDecl" for x in tps) and qt.startswith("bool"):
+                    if ps == "constIntrusivePtr<T>&,constIntrusivePtr<U>&" and len(tps) == 2:
+                        tag = "FCmpOp %s 2 true" % kinds[c["name"]]
+                    elif ps == "constIntrusivePtr<T>&,constIntrusivePtr<T>&" and len(tps) == 1:
+                        tag = "FCmpOp %s 1 false" % kinds[c["name"]]
+                names.append("%s<%d> %s" % (c.get("name"), len(tps), qt))
+            elif k == "TypeAliasTemplateDecl" and c.get("name") == "Ref":
+                tag = "FAliasRef"
+            elif k == "TypeAliasDecl" and c.get("name") == "RefCount":
+                tag = "FAliasRefCount"
+            if tag is None:
+                tag = "FOtherFree %d" % other
+                other += 1
+                names.append("unclassified %s %s" % (k, c.get("name")))
+            out.append(tag)
+    if not seen_ns:
+        out.append("FOtherFree 0")
+    order = ["FCmpOp KLt", "FCmpOp KEq", "FCmpOp KNe", "FAliasRef", "FAliasRefCount"]
+    key = lambda t: (next((i for i, o in enumerate(order) if t.startswith(o)), len(order)), t)
+    return sorted(out, key=key), names
+
+
 def extract(repo, work):
     docs = dump(repo, work, "IntrusivePtr")
     spec = [d for d in docs if d.get("kind") == "ClassTemplateSpecializationDecl" and d.get("name") == "IntrusivePtr"
@@ -657,7 +749,7 @@ def extract(repo, work):
     try:
         cmpf = cmp_facts(repo, work, spec[0] if spec else None)
     except Exception as ex:
-        cmpf = {"c_eq": "CUnk", "c_ne": "CUnk", "c_lt": "CUnk", "a_bool": False, "a_arrow": False, "a_deref": False}
+        cmpf = {"c_eq": "CUnk", "c_ne": "CUnk", "c_lt": "CUnk", "a_bool": False, "a_arrow": False, "a_deref": False, "c_mixed": False}
         notes.append("comparison facts: %r" % (ex,))
     info["cmp"] = cmpf
     try:
@@ -672,12 +764,19 @@ def extract(repo, work):
     except Exception as ex:
         sel, detail = {}, {}
         notes.append("overload selection: %r" % (ex,))
+    try:
+        free, fnames = free_decls(repo, work)
+    except Exception as ex:
+        free, fnames = ["FOtherFree 0"], []
+        notes.append("free declarations: %r" % (ex,))
+    info["free"] = free
+    info["free_decls"] = fnames
     info["sel"] = {k: list(v) for k, v in sel.items()}
     info["sel_detail"] = detail
     return table, rc, info, notes
 
 
-def coq_text(table, rc, cmpf=None, mem=None, sel=None):
+def coq_text(table, rc, cmpf=None, mem=None, sel=None, free=None):
     b = lambda x: "true" if x else "false"
     lines = ["(* GENERATED by props/C08/factgen.py from the working tree - do not edit, not under version control. *)",
              "From Coq Require Import List.", "From C08 Require Import Model.", "Import ListNotations.", "",
@@ -689,7 +788,7 @@ def coq_text(table, rc, cmpf=None, mem=None, sel=None):
               "  mkRc %s %s %s %s %s %s %s." % tuple(b(rc[k]) for k in (
                   "rc_atomic", "rc_init_one", "rc_inc_single", "rc_dec_single", "rc_dec_own_result", "rc_dec_deletes", "rc_use_load")),
               ""]
-    cmpf = cmpf or {"c_eq": "CUnk", "c_ne": "CUnk", "c_lt": "CUnk", "a_bool": False, "a_arrow": False, "a_deref": False}
+    cmpf = cmpf or {"c_eq": "CUnk", "c_ne": "CUnk", "c_lt": "CUnk", "a_bool": False, "a_arrow": False, "a_deref": False, "c_mixed": False}
     mem = mem if mem is not None else ["DOther 0"]
     sel = sel or {}
     forms = ["FDef", "FCopyL", "FMoveR", "FConvL", "FConvR", "FConvTemp", "FRawC", "FDtorF",
@@ -700,8 +799,9 @@ def coq_text(table, rc, cmpf=None, mem=None, sel=None):
         m, v = sel.get(f, (None, "VUnknown"))
         lines.append("  | %s => (%s, %s)" % (f, "Some %s" % m if m else "None", v))
     lines += ["  end.", ""]
+    lines += ["Definition gen_free : list fdecl :=", "  [%s]." % "; ".join(free if free is not None else ["FOtherFree 0"]), ""]
     lines += ["Definition gen_cmp : cmpfacts :=",
-              "  mkCmp %s %s %s %s %s %s." % (cmpf["c_eq"], cmpf["c_ne"], cmpf["c_lt"], b(cmpf["a_bool"]), b(cmpf["a_arrow"]), b(cmpf["a_deref"])),
+              "  mkCmp %s %s %s %s %s %s %s." % (cmpf["c_eq"], cmpf["c_ne"], cmpf["c_lt"], b(cmpf["a_bool"]), b(cmpf["a_arrow"]), b(cmpf["a_deref"]), b(cmpf.get("c_mixed", False))),
               ""]
     return "\n".join(lines)
 
@@ -738,7 +838,7 @@ def main(argv):
         else:
             i += 1
     table, rc, info, notes = extract(repo, work)
-    txt = coq_text(table, rc, info.get("cmp"), info.get("members"), {k: tuple(v) for k, v in (info.get("sel") or {}).items()})
+    txt = coq_text(table, rc, info.get("cmp"), info.get("members"), {k: tuple(v) for k, v in (info.get("sel") or {}).items()}, info.get("free"))
     if out:
         os.makedirs(os.path.dirname(os.path.abspath(out)), exist_ok=True)
         if not os.path.exists(out) or open(out).read() != txt:
